@@ -408,6 +408,9 @@ func ruleR13_2(w *World, r *Report) {
 				if strings.Contains(l, "GetDatatype(") && strings.HasSuffix(l, "#0 == nil") {
 					ls = append(ls, "$0.datatypeDoc == nil")
 				}
+				if strings.Contains(l, "GetDatatype(") && strings.HasSuffix(l, "#0 != nil") {
+					ls = append(ls, "$0.datatypeDoc != nil")
+				}
 			}
 			norm = append(norm, ls)
 		}
